@@ -268,6 +268,12 @@ theorem inv_aux : (e : Expr) → GivenOk e = true → FiniteBounds e = true →
     intro ty h
     simp only [abs] at h
     exact inv_aux e hg hf ty h
+  | .vref e, hg, hf => by
+    simp only [GivenOk] at hg
+    simp only [FiniteBounds] at hf
+    intro ty h
+    simp only [abs] at h
+    exact inv_aux e hg hf ty h
 theorem invList_aux : (es : List Expr) → GivenOkList es = true → FiniteBoundsList es = true →
     ∀ tys, absList es = some tys → ∀ t ∈ tys, InvT t
   | [], _, _ => by
